@@ -82,8 +82,9 @@ fn main() {
     match args[2].as_str() {
         "quick" | "thorough" => {
             let tier = if args[2] == "quick" { Tier::Quick } else { Tier::Thorough };
-            let ctx = Ctx::new(id, tier, def.level);
-            if let Err(p) = catch(|| (def.run)(&ctx)) {
+            let ctx: &'static Ctx = Box::leak(Box::new(Ctx::new(id, tier, def.level)));
+            start_progress_watchdog(ctx, 300);
+            if let Err(p) = catch(|| (def.run)(ctx)) {
                 // a bug in the harness itself: never reported as a violation
                 println!("INFRA: the harness panicked: {p}");
                 ctx.inconclusive(&format!("harness panic: {p}"));
